@@ -77,13 +77,9 @@ func tarMode(m os.FileMode) int64 {
 	return int64(m) | int64(FilemodeToStatMode(m)&07000)
 }
 
-// We're not using os.Filemode here but the low-level system modes where the mode bits
-// are in the lower half. Can't use os.ModeCharDevice here.
-const modeChar = 0x4000
-
 func (fs TarWriter) CreateDevice(n NodeDevice) error {
 	var typ byte = gnutar.TypeBlock
-	if n.Mode&modeChar != 0 {
+	if n.Mode&os.ModeCharDevice != 0 {
 		typ = gnutar.TypeChar
 	}
 	hdr := &gnutar.Header{
@@ -96,6 +92,7 @@ func (fs TarWriter) CreateDevice(n NodeDevice) error {
 		Xattrs:   n.Xattrs,
 		Devmajor: int64(n.Major),
 		Devminor: int64(n.Minor),
+		Format:   fs.format,
 	}
 	return fs.w.WriteHeader(hdr)
 }
